@@ -172,6 +172,11 @@ def po_series_metrics(S):
     apy = total ** (365 / days) - 1
     sh = calc.sharpe_ratio(interval, days, nv, rf)
     S.check("sharpe==(annualised-rf)/volatility", S.eq(sh, (apy - rf) / (_std(rets) * math.sqrt(365 / interval))))
+    # the benchmark is a series of its own: its index labels need not be those of the net-value series (a differently
+    # labelled or shifted index); returns are paired bar by bar, by position
+    if S.bool("benchmark_has_its_own_index"):
+        import pandas as pd
+        bm = pd.Series(list(bm), index=pd.RangeIndex(5, 5 + len(bvals)))
     alpha, beta = calc.alpha_beta(nv, bm, days)
     btotal = 1.0
     for r in brets:
